@@ -40,7 +40,7 @@ type c11Case struct {
 	// maps must describe the edited tree.
 	ListEdit string `json:"list_edit,omitempty"`
 	Typed    bool   `json:"typed,omitempty"`
-	SkipObj bool `json:"skip_object_resolution,omitempty"`
+	SkipObj  bool   `json:"skip_object_resolution,omitempty"`
 }
 
 var c11ImportEdits = []string{"rebuild", "alias", "addref", "unused"}
